@@ -38,6 +38,18 @@ CLAIMED = {
  "C15": ("eng-trie", "interface model (contents + lock multiset + handle table with generation counter) predicting every InstanceState return code",
    "Exploration: interleavings of create/delete/delete_prefix/lookup, up to six simultaneous iterators on equal, nested and disjoint prefixes, iterator next/delete/key reads and entry read/write/size/resize through valid, stale, forged and wrong-generation handles, in segments separated by interrupts (unchanged / nested change rolled back / changed) run on the real InstanceState; every return code is predicted by a model written from the documentation; at each quiescent point the lock map must hold exactly one reference per live iterator.",
    "Trusted: the interface model in c15.rs and the H2 wrappers. Handles to entries overwritten (not deleted) by create_entry are not judged."),
+ "C07": ("eng-crypto", "completeness + single-component perturbation + recording-transcript binding audit + framing-injectivity monitors over executions of the real provers/verifiers",
+   "Exploration: for every reachable sigma protocol and the AND/replicated adapters, instances are built from random witnesses, proved and verified (completeness); every statement field, the context, the challenge and every response component is perturbed one at a time and verification must fail; a recording implementation of the transcript trait checks that every public statement field (down to leaf components) changes the byte stream and the challenge; generated pairs of distinct V1 transcript operation sequences must give different challenges. Soundness is only probed with the cheating strategies that are implemented.",
+   "Trusted: instance builders in c07.rs. Open known finding F6 (ComEncEq omits a public generator from the transcript) is listed in known_findings.json. dlogeq/dlogaggequal are private modules and not reachable; synthetic sequences are not checked on the legacy (unframed) oracle."),
+ "C08": ("eng-crypto", "pipeline executions with accept / reconstruct / single-field-perturbation oracles",
+   "Exploration: identity pipelines (IP with 1-6 revokers, all thresholds, attribute lists, policies, counters 0..max, v0/v1 identity objects, new/existing accounts, minimal-length IP keys) are run end to end; honest objects must be accepted at every stage, every subset of >= threshold revokers must reconstruct the holder's id_cred_pub (and PRF key for v0) while threshold-1 shares must not, and 33 kinds of single-field perturbations of the credential, a counter above the limit, and foreign IP/AR/global keys must be rejected by verify_cdi.",
+   "Trusted: the library's own fixtures (feature internal-test-helpers) for key material. Some library functions draw from thread_rng, so only configurations (not exact bytes) replay; witnesses carry the credential bytes. Verifier panics on shortened range proofs (observation O5) are counted as rejection."),
+ "C11": ("eng-crypto", "ground-truth integer arithmetic vs prover/verifier outcomes + single-component perturbations",
+   "Exploration: range proofs for n in {1..64 powers of two} and batch sizes 1-8, the derived <=, in-range, set membership and non-membership statements are generated at and around their boundaries; true statements must prove and verify, false statements (including values fed through the scalar-level prover) must not, and every proof component, commitment, bit width, generator vector and transcript domain is perturbed one at a time and must be rejected.",
+   "Trusted: harness arithmetic. Non-power-of-two widths are undocumented and only observed. A verifier panic counts as 'does not verify' (observation O5)."),
+ "C18": ("eng-crypto", "ground-truth evaluation of atomic statements vs prover/verifier outcomes + single-field perturbations of requests, presentations and contexts",
+   "Exploration: attribute statement sets (reveal, range, set, not-in-set at their boundaries, string and numeric attributes) and web3id presentations over account and web3 credentials (with linking proofs) are generated; all-true sets must prove, verify and reveal exactly the committed values, sets with a false statement must not verify, and 15+23 kinds of perturbations of statements, challenge, commitments, metadata and proofs must be rejected.",
+   "Trusted: harness evaluation of statements. web3id v1 (web3id/v1/*) and identity_attributes_credentials are not covered; legacy Version1 range proofs are not bound to the context by design and are only observed."),
 }
 
 REFS = {k: "5/" + k for k in CLAIMED}
